@@ -191,6 +191,17 @@ def extra_checks(tier, seed):
     aut2 = pd.ode_autonomous_order_two(lambda y, dy: -y)
     add("dense.prior_exponential(order-2 ODE, three coefficients)", lambda: dense.prior_exponential(aut2, tcoeffs))
     add("dense.prior_exponential(order-1 ODE, three coefficients)", lambda: dense.prior_exponential(pd.ode_autonomous(lambda y: -y), tcoeffs))
+    # ... also when the ODE description tolerates surplus coefficients (arbitrary-order wrapper slices what it needs)
+    arb2 = pd.ode_autonomous_order_arbitrary(lambda y, dy: -y - dy, num_tcoeffs_in_args=2)
+
+    def use_prior(prior):
+        cond = prior.transition(dt=0.1, output_scale=jnp.ones(()))
+        return cond.preconditioner_apply().A
+
+    add("dense.prior_exponential(arbitrary-order wrapper of order 2, three coefficients)", lambda: use_prior(dense.prior_exponential(arb2, tcoeffs)))
+    add("dense.prior_exponential(arbitrary-order wrapper of order 2, two coefficients + one diffuse derivative)", lambda: use_prior(dense.prior_exponential(arb2, tcoeffs[:2], diffuse_derivatives=1)))
+    add("dense.prior_exponential_diffuse(arbitrary-order wrapper of order 2, three coefficients)", lambda: use_prior(dense.prior_exponential_diffuse(arb2, tcoeffs, [jnp.ones((d,)) * 0.1 for _ in range(3)])))
+    add("dense.prior_exponential(arbitrary-order wrapper of order 3, two coefficients)", lambda: use_prior(dense.prior_exponential(pd.ode_autonomous_order_arbitrary(lambda y, dy, ddy: -y, num_tcoeffs_in_args=3), tcoeffs[:2])))
     # jet expansion needs an ODE description
     for nm, alg in [("unroll", pd.jetexpand_ode_unroll(num=2)), ("padded_scan", pd.jetexpand_ode_padded_scan(num=2)), ("via_jvp", pd.jetexpand_ode_via_jvp(num=2))]:
         add(f"jetexpand_ode_{nm}(plain function)", lambda alg=alg: alg(vf, [jnp.ones((d,))], t=0.0))
